@@ -12,7 +12,7 @@ META = {
         "note": "Trusted: gosym thread model, stub bus/pubsub contracts (stated). Bounds: one Close moment per path, <= 2 repeats, one later operation; 2 databases for Drop.",
     },
     "C14": {
-        "text": "Bounded model checking of the real address pipeline with the database name a symbolic byte string: 2-safety (two peers, same inputs, equal addresses), injectivity, self-description (Parse(String()) and manifest at the root), reopen on another peer (type and write list), overwrite / local-only refusal, and names embedding another database's root. The address package's Parse / String / IsValid round trip runs on symbolic strings of up to 5 bytes (percent escapes, slashes), and the root package's helper constructors are covered by VerifC14Helpers.",
+        "text": "Bounded model checking of the real address pipeline with the database name a symbolic byte string: 2-safety (two peers, same inputs, equal addresses), injectivity, self-description (Parse(String()) and manifest at the root), reopen on another peer (type and write list), overwrite / local-only refusal, and names embedding another database's root. The address package's Parse / String / IsValid round trip runs on symbolic strings of up to 5 bytes (percent escapes, slashes), and the root package's helper constructors are covered by VerifC14Helpers. A reuse harness passes ONE parameter / options value through Create (and Open) of a first database and then, with another write list, through DetermineAddress and Create of a second one.",
         "design_ref": "DESIGN.md §2 C14",
         "note": "Trusted: perfect hashing, idealised CBOR driven by the registered atlases, disk model. Bounds: names <= 2 bytes quick / 4 thorough (injectivity 1 / 2), 3 store types, <= 3 writers.",
     },
@@ -32,22 +32,22 @@ META = {
         "note": "Trusted: perfect hashing/signatures, gosym. Bounds: one tampered entry, 9 field selectors x re-address x route.",
     },
     "C10": {
-        "text": "Bounded model checking of the real Sync/replicator/main-loop/Join code under adversarial announcements: each class of rejected head is built with the real ipfs-log (perfect symbolic signatures), mixed with a valid head at each position, and the valid head is re-announced; the replica's log is inspected at quiescence.",
+        "text": "Bounded model checking of the real Sync/replicator/main-loop/Join code under adversarial announcements: each class of rejected head is built with the real ipfs-log (perfect symbolic signatures), mixed with a valid head at each position, and the valid head is re-announced; the replica's log is inspected at quiescence. The rejected head may claim the valid entry's address and may be announced alone before it.",
         "design_ref": "DESIGN.md §2 C10",
         "note": "Trusted: gosym thread model, stub block store, perfect crypto. Bounds: 2 heads per announcement, 5 rejection classes x 2 positions.",
     },
     "C11": {
-        "text": "Bounded model checking of the real replicator with the abort point as a choice: cancellation before the request, at every block fetch, after the last fetch, and/or a failing fetch, for chain and two-branch logs and concurrency 1..2; then a clean retry must converge. One class of counterexamples is a listed known finding (partial ancestry); its complement is verified.",
+        "text": "Bounded model checking of the real replicator with the abort point as a choice: cancellation before the request, at every block fetch, after the last fetch, and/or a failing fetch, for chain and two-branch logs and concurrency 1..2; then a clean retry must converge. One class of counterexamples is a listed known finding (partial ancestry); its complement is verified. A saturated-replicator harness (one fetch slot, two heads, abort at the first or second fetch) explores which waiting worker gets the slot under every schedule within the preemption bound; the later request names the same heads or a newer head.",
         "design_ref": "DESIGN.md §2 C11, §4",
         "note": "Trusted: gosym thread model, stub block store with fault injection at fetches. Known finding C11-partial-ancestry is reported (KNOWN-FINDING line) and carved out.",
     },
     "C09": {
-        "text": "Bounded model checking of the real listeners and main loops of two stores sharing one bus: every action sequence on one database (symbolic payloads) is executed on the real InitBaseStore/storeListener/replicator/main-loop code and the other database's topic, log, status and the addresses on all emitted events are checked at quiescence. At instance level two real orbitDB instances hold the same two databases; head exchanges for both travel back to back over one direct channel and replicate concurrently on the shared bus; contents, status, events and every wire message are checked per database. A valid entry of database B handed to A (manually or on A's topic / direct channel) is part of the action alphabet.",
+        "text": "Bounded model checking of the real listeners and main loops of two stores sharing one bus: every action sequence on one database (symbolic payloads) is executed on the real InitBaseStore/storeListener/replicator/main-loop code and the other database's topic, log, status and the addresses on all emitted events are checked at quiescence. At instance level two real orbitDB instances hold the same two databases; head exchanges for both travel back to back over one direct channel and replicate concurrently on the shared bus; contents, status, events and every wire message are checked per database. A valid entry of database B handed to A (manually or on A's topic / direct channel) is part of the action alphabet. The second instance also opens both databases with ONE reused options value.",
         "design_ref": "DESIGN.md §2 C09",
         "note": "Trusted: gosym, stub bus/pubsub/direct channel. Bounds: 2 databases, STEPS<=3 quick / 4 thorough.",
     },
     "C05": {
-        "text": "Bounded model checking with the crash point as a solver variable: the real write and replication paths run over a disk that logs every persistence effect in order, acknowledgement instants are recorded, the crash index is a symbolic integer over all prefixes of the effect log, and the real Load runs on the recovered prefix; the solver shows every acknowledged entry is recovered, nothing unwritten appears, the log is ancestry-closed and the view matches. At instance level: clean close / reopen cycles by address and by name (Create with Overwrite) incl. reopen attempts that fail, and identity persistence through the public NewOrbitDB (real keystore and CreateIdentity over symbolic keys and a disk model with leveldb's directory lock).",
+        "text": "Bounded model checking with the crash point as a solver variable: the real write and replication paths run over a disk that logs every persistence effect in order, acknowledgement instants are recorded, the crash index is a symbolic integer over all prefixes of the effect log, and the real Load runs on the recovered prefix; the solver shows every acknowledged entry is recovered, nothing unwritten appears, the log is ancestry-closed and the view matches. At instance level: clean close / reopen cycles by address and by name (Create with Overwrite) incl. reopen attempts that fail, and identity persistence through the public NewOrbitDB (real keystore and CreateIdentity over symbolic keys and a disk model with leveldb's directory lock). A sessions harness goes through clean close / reopen sessions with ANY load limit, extra writes and a second handle on the same directory, then reloads in full.",
         "design_ref": "DESIGN.md §2 C05",
         "note": "Trusted: gosym, z3, the effect-log disk model (each effect durable on return). Bounds: STEPS<=3 quick / 4 thorough, one local and one remote writer.",
     },
@@ -64,15 +64,15 @@ META = {
     "C15": {
         "text": "Bounded model checking of the real Load path (cache heads -> ipfs-log fetcher -> Join with size trimming -> index) with the limit a full 64-bit symbolic integer: the solver partitions the limit's range at every comparison in the real code and shows, per class, no panic, no error and exactly min(n,total) most recent entries in log order. With several cached heads the per-head goroutines of Load are explored under every schedule within the preemption bound.",
         "design_ref": "DESIGN.md §2 C15",
-        "note": "Trusted: gosym, z3, block-store/cache stubs. Bounds: logs of T<=3 quick / 5 thorough entries, one or two heads.",
+        "note": "Trusted: gosym, z3, block-store/cache stubs. Bounds: logs of T<=3 quick / 5 thorough entries, one or two heads, P=1 preemption.",
     },
     "C17": {
-        "text": "Bounded model checking over thread schedules of the real write path: the interpreter owns scheduling, every preemption point at a visible operation is a decision of the path (preemption bound P), payloads are symbolic; each schedule is executed on the real AddOperation/Append/Load code and the oracle (distinct entries, all listed, all recovered after restart) is checked on it. A second harness races W writers against the END of a replication (replicationLoadComplete persists heads too) under every schedule with P preemptions, then restarts.",
+        "text": "Bounded model checking over thread schedules of the real write path: the interpreter owns scheduling, every preemption point at a visible operation is a decision of the path (preemption bound P), payloads are symbolic; each schedule is executed on the real AddOperation/Append/Load code and the oracle (distinct entries, all listed, all recovered after restart) is checked on it. A second harness races W writers against the END of a replication (replicationLoadComplete persists heads too) under every schedule with P preemptions, then restarts. Both harnesses also require every acknowledged entry in the VIEW (materialised index) as soon as all calls returned.",
         "design_ref": "DESIGN.md §2 C17",
         "note": "Trusted: gosym's thread model (sequentially consistent at visible-operation granularity), stub cache/block store. Bounds: W=2,P=1 quick / W=3,P=2 thorough. The deciding step is exhaustive enumeration of schedules within the bound, each closed by solver verdicts over the symbolic payloads.",
     },
     "C20": {
-        "text": "Bounded model checking of the real adapter code: peersDiff over all membership-snapshot sequences with symbolic peer ids, the self-filter and ordering of WatchMessages/monitorTopic over scripted messages with symbolic bodies, channel-name symmetry/injectivity over symbolic ids, and the varint frame round trip plus arbitrary raw frames. The pubsubraw adapter runs over scripted stand-ins for libp2p-pubsub's concrete Topic / Subscription / TopicEventHandler (methods replaced by name under the interpreter). Further harnesses: WatchPeers / two watchers of one topic with one cancelled, the direct-channel factory, reconnect after the Connect context ended, and the pubsubraw adapter over scripted libp2p stand-ins.",
+        "text": "Bounded model checking of the real adapter code: peersDiff over all membership-snapshot sequences with symbolic peer ids, the self-filter and ordering of WatchMessages/monitorTopic over scripted messages with symbolic bodies, channel-name symmetry/injectivity over symbolic ids, and the varint frame round trip plus arbitrary raw frames. The pubsubraw adapter runs over scripted stand-ins for libp2p-pubsub's concrete Topic / Subscription / TopicEventHandler (methods replaced by name under the interpreter). Further harnesses: WatchPeers / two watchers of one topic with one cancelled, the direct-channel factory, reconnect after the Connect context ended, and the pubsubraw adapter over scripted libp2p stand-ins. A poll-error harness makes one poll of the underlying Peers() fail transiently at any position.",
         "design_ref": "DESIGN.md §2 C20",
         "note": "Trusted: gosym, z3, scripted coreiface PubSub stub. Bounds: 3 peers x 3/4 snapshots, 3/5 messages, ids <= 2/3 bytes, payloads <= 3/6 bytes, raw frames <= 11/12 bytes.",
     },
@@ -82,7 +82,7 @@ META = {
         "note": "Trusted: gosym, z3; encoding/json is over-approximated by 'error or any value of the message type' for head messages. Bounds: frames <= 11/12 bytes, <= 2 heads.",
     },
     "C06": {
-        "text": "Bounded model checking of the real kvIndex.UpdateIndex / All / Get (through a store built by the real InitBaseStore): for every listing of N put/delete operations with symbolic keys and values and every earlier index state, the solver shows All() and Get(k) equal the last-writer-wins replay. A further harness gives two causally ordered puts SYMBOLIC clock values in [1, 2^40] (store-level sort), and a read-during-write harness checks a reader between append and index update.",
+        "text": "Bounded model checking of the real kvIndex.UpdateIndex / All / Get (through a store built by the real InitBaseStore): for every listing of N put/delete operations with symbolic keys and values and every earlier index state, the solver shows All() and Get(k) equal the last-writer-wins replay. A further harness gives two causally ordered puts SYMBOLIC clock values in [1, 2^40] (store-level sort), and a read-during-write harness checks a reader between append and index update. The map All() returns is treated as caller-owned: after the caller empties it and adds a key, All() and Get must still equal the replay.",
         "design_ref": "DESIGN.md §2 C06",
         "note": "Trusted: gosym SSA semantics (native replay of sampled paths per run), z3, idealised JSON codec. Bounds: N<=3 quick / 4 thorough, 1-byte keys, 0..1-byte values.",
     },
@@ -92,7 +92,7 @@ META = {
         "note": "Trusted: gosym, z3, idealised JSON, ASCII-exact ToLower stand-in. Bounds: N<=2/3 ops, M<=2/3 documents, keys <=1/2 bytes printable ASCII without space.",
     },
     "C08": {
-        "text": "Bounded model checking of the real query/read window code with the amount a full 64-bit symbolic integer and every bound kind/position: the solver shows the returned slice is exactly the specified contiguous window and the listing is not disturbed. The window harness drives the public List / Stream / Get as well as the internal query, twice, for listings of 0..N entries.",
+        "text": "Bounded model checking of the real query/read window code with the amount a full 64-bit symbolic integer and every bound kind/position: the solver shows the returned slice is exactly the specified contiguous window and the listing is not disturbed. The window harness drives the public List / Stream / Get as well as the internal query, twice, for listings of 0..N entries. A three-writer harness (Lamport-time ties between three writer keys) applies the same per-step oracle on every replica and requires identical listings after all-to-all exchange.",
         "design_ref": "DESIGN.md §2 C08",
         "note": "Trusted: gosym, z3. Bounds: listing length N<=4 quick / 6 thorough. The order-stability clause over merge histories is decided by the C01 harnesses (real ipfs-log), see DESIGN.",
     },
